@@ -209,6 +209,8 @@ type LogOpts struct {
 	Extreme   bool      // quantities from extremeQty
 	LongDays  bool      // one or two days of 33..80 lines (with repeats, also of the line just before)
 	Pad       bool      // 2 x 40000 bytes of comment lines after blocks
+	// Chrono: 35..80 day blocks in chronological order (as a diary is written), then one to three back-filled earlier days
+	Chrono bool
 }
 
 // genLog draws a log: day blocks in any order, repeated dates, empty days,
@@ -225,6 +227,12 @@ func genLog(t *rapid.T, book []Block, o LogOpts) []Block {
 		o.Base = baseDay
 	}
 	n := rapid.IntRange(o.MinDays, o.MaxDays).Draw(t, "n_days")
+	backfill := 0
+	if o.Chrono {
+		n = rapid.IntRange(35, 80).Draw(t, "n_days_chrono")
+		backfill = rapid.IntRange(1, 3).Draw(t, "n_backfill")
+		n += backfill
+	}
 	days := make([]Block, n)
 	var foods []string
 	for _, r := range book {
@@ -234,6 +242,9 @@ func genLog(t *rapid.T, book []Block, o LogOpts) []Block {
 		off := rapid.IntRange(0, o.Window-1).Draw(t, fmt.Sprintf("d%d_off", i))
 		if o.Sorted {
 			off = i * o.Window / (n + 1)
+		}
+		if o.Chrono && i < n-backfill {
+			off = i * o.Window / (n - backfill) // ascending, several blocks per date
 		}
 		days[i].Head = o.Base.AddDate(0, 0, off).Format(o.Layout)
 		k := rapid.IntRange(0, 5).Draw(t, fmt.Sprintf("d%d_items", i))
